@@ -11,7 +11,10 @@ Enumerated space (every element is one real run of the html target of the workin
                   into one output directory / into separate ones, deprecated + fixed port-id).
   C  links        referrer at namespace depth 1..3 x target at depth 1..3 in the same branch / another branch / another
                   root (one output directory and separate ones) x 6 kinds of reference: 33 graphs holding all six
-                  kinds at once (core) and the 198 graphs with a single reference each (quick: seed slice).
+                  kinds at once (core) and the 198 graphs with a single reference each (quick: seed slice); plus
+                  namespace pairs where one full name is a string prefix of the other (siblings ra.p/ra.pq at depth 2
+                  and 3, roots ra/rab, same and separate output directories, both directions of reference): 12 graphs
+                  with all six kinds (core) and 72 single-reference graphs (quick: seed slice).
   D  names        identifier shapes at type / field / constant / namespace position, and the shapes that alias under the
                   generator's id scheme ('.' -> '_', '_sidebar' suffix, ids fixed by the template).
   E  constants    constant expressions of every primitive kind incl. character literals '<' '&' '"'.
@@ -62,7 +65,7 @@ TOKENS = [
 ]
 MARKER_ELEMENTS = ("xq7",)
 B_EXTRA_DOCS = ["<ok>", "</pre><xq7 a=1>", "<!--ok-->", "&lt;xq7&gt;", "ok" + EOL + "<xq7 a=1>"]
-B_CORE_DOCS = ["<xq7 a=1>", "</pre>", "&amp;", "<script>xq7s(1)</script>", "ok" + EOL + "<xq7 a=1>"]
+B_CORE_DOCS = ["<xq7 a=1>", "</pre>", "&amp;", "<script>xq7s(1)</script>"]
 SPECIAL = re.compile(r"[<>&\"']")
 
 
@@ -370,6 +373,27 @@ def graph_files(g: Graph, vary: typing.Optional[str], doc: typing.Optional[str])
 REF_KINDS = ("field", "fixed_array", "var_array", "union_alt", "service_request_field", "service_response_field")
 
 
+def _ref_body(tgt: str, kind: str) -> str:
+    return {
+        "field": f"{tgt} g\n@sealed\n",
+        "fixed_array": f"{tgt}[2] ga\n@sealed\n",
+        "var_array": f"{tgt}[<=2] gv\n@sealed\n",
+        "union_alt": f"@union\nuint8 a\n{tgt} b\n@sealed\n",
+        "service_request_field": f"{tgt} g\n@sealed\n---\nuint8 r\n@sealed\n",
+        "service_response_field": f"uint8 q\n@sealed\n---\n{tgt} g\n@sealed\n",
+    }[kind]
+
+
+def _path_link_case(label: str, ref_path: typing.Sequence[str], tgt_path: typing.Sequence[str], kind: str, mode: str) -> dict:
+    tgt = ".".join(tgt_path) + ".G.1.0"
+    files = {
+        "/".join(tgt_path) + "/G.1.0.dsdl": "uint8 g\n@sealed\n",
+        "/".join(ref_path) + "/R.1.0.dsdl": _ref_body(tgt, kind),
+    }
+    roots = [ref_path[0]] + ([tgt_path[0]] if tgt_path[0] != ref_path[0] else [])
+    return {"label": label, "files": files, "roots": roots, "mode": mode}
+
+
 def link_case(d_ref: int, d_tgt: int, where: str, kind: str, mode: str) -> dict:
     ref_path = ["ra", "p", "q"][:d_ref]
     if where == "same_branch":
@@ -378,23 +402,52 @@ def link_case(d_ref: int, d_tgt: int, where: str, kind: str, mode: str) -> dict:
         tgt_path = ["ra", "s", "t"][:d_tgt]
     else:
         tgt_path = ["rb", "s", "t"][:d_tgt]
-    tgt = ".".join(tgt_path) + ".G.1.0"
-    body = {
-        "field": f"{tgt} g\n@sealed\n",
-        "fixed_array": f"{tgt}[2] ga\n@sealed\n",
-        "var_array": f"{tgt}[<=2] gv\n@sealed\n",
-        "union_alt": f"@union\nuint8 a\n{tgt} b\n@sealed\n",
-        "service_request_field": f"{tgt} g\n@sealed\n---\nuint8 r\n@sealed\n",
-        "service_response_field": f"uint8 q\n@sealed\n---\n{tgt} g\n@sealed\n",
-    }[kind]
-    files = {"/".join(tgt_path) + "/G.1.0.dsdl": "uint8 g\n@sealed\n", "/".join(ref_path) + "/R.1.0.dsdl": body}
-    roots = ["ra"] + (["rb"] if where == "cross_root" else [])
-    return {
-        "label": f"link:{kind}:ref_depth{d_ref}:target_depth{d_tgt}:{where}:{mode}",
-        "files": files,
-        "roots": roots,
-        "mode": mode,
-    }
+    return _path_link_case(
+        f"link:{kind}:ref_depth{d_ref}:target_depth{d_tgt}:{where}:{mode}", ref_path, tgt_path, kind, mode
+    )
+
+
+# Namespaces whose full name is a STRING prefix of another one's (ra.p / ra.pq, ra.s.p / ra.s.pq, roots ra / rab): a
+# link computation that decides "the referenced type is on this page" without a '.' boundary goes wrong exactly here.
+PREFIX_PAIRS = [
+    ("siblings_depth2", ["ra", "p"], ["ra", "pq"], ("same",)),
+    ("siblings_depth3", ["ra", "s", "p"], ["ra", "s", "pq"], ("same",)),
+    ("roots", ["ra"], ["rab"], ("same", "separate")),
+    ("roots_nested", ["ra", "p"], ["rab", "p"], ("same", "separate")),
+]
+
+
+def _prefix_shapes() -> typing.Iterator[typing.Tuple[str, typing.List[str], typing.List[str], str]]:
+    for name, short, long_, modes in PREFIX_PAIRS:
+        for mode in modes:
+            yield f"{name}:short_refs_long:{mode}", short, long_, mode
+            yield f"{name}:long_refs_short:{mode}", long_, short, mode
+
+
+def prefix_link_cases() -> typing.List[dict]:
+    return [
+        _path_link_case(f"prefixlink:{kind}:{label}", ref, tgt, kind, mode)
+        for label, ref, tgt, mode in _prefix_shapes()
+        for kind in REF_KINDS
+    ]
+
+
+def _merge_kinds(label: str, cases: typing.Sequence[dict]) -> dict:
+    files: typing.Dict[str, str] = {}
+    for i, c in enumerate(cases):
+        for rel, text in c["files"].items():
+            files[rel.replace("/R.1.0.dsdl", f"/R{i}.1.0.dsdl")] = text
+    return {"label": label, "files": files, "roots": cases[0]["roots"], "mode": cases[0]["mode"]}
+
+
+def prefix_link_set_cases() -> typing.List[dict]:
+    """One graph per prefix shape holding all six kinds of reference (the quick core of the prefix shapes)."""
+    return [
+        _merge_kinds(
+            f"prefixlinkset:{label}", [_path_link_case("", ref, tgt, kind, mode) for kind in REF_KINDS]
+        )
+        for label, ref, tgt, mode in _prefix_shapes()
+    ]
 
 
 def link_set_case(d_ref: int, d_tgt: int, where: str, mode: str) -> dict:
@@ -931,7 +984,7 @@ def _work(job: dict) -> dict:
     else:
         if job["type"] == "docs":
             g = B_GRAPHS[job["graph"]]
-            cases = [_doc_case(g, job["slot"], d) for d in job["docs"]]
+            cases = [_doc_case(g, slot, d) for slot, ds in job["items"] for d in ds]  # one base run serves all slots
         else:
             cases = job["cases"]
         pairs = [(c, eval_case(c, scratch, cache)) for c in cases]
@@ -1001,11 +1054,18 @@ def run(ctx: Ctx) -> int:
             b_docs = [d for d in b_all if d in B_CORE_DOCS or ctx.in_slice(f"B|{g.name}|{slot}|{d}")]
             n_b_total += len(b_all)
             n_b += len(b_docs)
-            for i in range(0, len(b_docs), 11):
-                jobs.append({"type": "docs", "graph": g.name, "slot": slot, "docs": b_docs[i : i + 11], "scratch": scratch})
+            chunks = [(slot, b_docs[i : i + 11]) for i in range(0, len(b_docs), 11)]
+            if ctx.thorough:
+                jobs += [{"type": "docs", "graph": g.name, "items": [c], "scratch": scratch} for c in chunks]
+            elif jobs and jobs[-1].get("graph") == g.name and len(jobs[-1]["items"]) < 3:
+                jobs[-1]["items"] += chunks  # quick: up to 3 slots of a graph share a job (and its base run)
+            else:
+                jobs.append({"type": "docs", "graph": g.name, "items": chunks, "scratch": scratch})
     # ---- layers C, D, E
-    single_links = [c for c in link_cases() if ctx.in_slice("C|" + c["label"])]
-    plain = link_set_cases() + single_links + name_cases() + const_cases()
+    all_single = link_cases() + prefix_link_cases()
+    single_links = [c for c in all_single if ctx.in_slice("C|" + c["label"])]
+    link_sets = link_set_cases() + prefix_link_set_cases()
+    plain = link_sets + single_links + name_cases() + const_cases()
     for i in range(0, len(plain), 6):
         jobs.append({"type": "cases", "cases": plain[i : i + 6], "scratch": scratch})
 
@@ -1061,8 +1121,9 @@ def run(ctx: Ctx) -> int:
         "bound_completed": f"A: {space['A_explored']}/{space['A_total']} (doc string x position; all strings of <= 2 "
         f"tokens over {len(TOKENS)} tokens at {len(HOSTS)} positions complete, 3-token strings "
         f"{'complete' if ctx.thorough else f'seed slice 1/{A_SLICE}'}); B: {n_b}/{n_b_total} ({len(B_GRAPHS)} graphs x every doc slot x "
-        f"{len(b_all)} strings; {len(B_CORE_DOCS)} core strings complete); C: {len(link_set_cases())} link graphs with all 6 "
-        f"reference kinds complete + {len(single_links)}/{len(link_cases())} single-reference link graphs; D: {len(name_cases())} "
+        f"{len(b_all)} strings; {len(B_CORE_DOCS)} core strings complete); C: {len(link_sets)} link graphs with all 6 "
+        f"reference kinds complete ({len(prefix_link_set_cases())} of them with prefix-named namespace pairs) + "
+        f"{len(single_links)}/{len(all_single)} single-reference link graphs; D: {len(name_cases())} "
         f"name/alias shapes complete; E: {len(const_cases())} constant expressions complete",
         "exhaustive": bool(ctx.thorough),
     }
